@@ -197,6 +197,44 @@ def run(ctx):
             raw = b"\x03" + der.encode_length(len(body) + 1) + bytes([unused]) + body + b"\x03"
             add([e for e in reader_events(der, raw) if e["fn"] == "remove_bitstring"])
 
+    # bodies of 64 KiB and more (three-octet long-form lengths): too long to ship to TLC octet by octet, so the event carries
+    # the header as offered, the number of octets that follow it and what the reader made of them (lengths, and whether the
+    # body / remainder are the right slices); DERTrace.tla decides acceptance from the header alone
+    def big_events():
+        readers = [("remove_octet_string", 0x04, der.remove_octet_string), ("remove_sequence", 0x30, der.remove_sequence),
+                   ("remove_constructed", 0xA1, lambda s_: (lambda t_, b_, r_: (b_, r_))(*der.remove_constructed(s_))),
+                   ("remove_bitstring", 0x03, lambda s_: (lambda b_, r_: (bytes([b_[1]]) + b_[0], r_))(*der.remove_bitstring(s_, None))),
+                   ("remove_integer", 0x02, None)]
+        sizes = [65535, 65536, 65537] if quick else [255, 256, 65535, 65536, 65537, 70000, 131072, 2 ** 24 - 1, 2 ** 24]
+        for name, tag, fn in readers:
+            for n in sizes:
+                for extra in (0, 3):
+                    lo = n.to_bytes((n.bit_length() + 7) // 8, "big")
+                    headers = [bytes([tag]) + der.encode_length(n), bytes([tag, 0x80 + len(lo) + 1]) + b"\x00" + lo,
+                               bytes([tag]) + der.encode_length(n + extra + 1)]
+                    for hi, hdr in enumerate(headers):
+                        if name == "remove_integer":
+                            body = b"\x01" + bytes(n - 1)
+                        elif name == "remove_bitstring":
+                            body = b"\x00" + bytes((i_ * 7 + 1) % 256 for i_ in range(min(n - 1, 64))) + bytes(max(0, n - 65))
+                        else:
+                            body = bytes((i_ * 5 + 2) % 256 for i_ in range(min(n, 64))) + bytes(max(0, n - 64))
+                        tail = b"\x05\x00\xff"[:extra]
+                        raw = hdr + body + tail
+
+                        def call():
+                            if name == "remove_integer":
+                                v, rest = der.remove_integer(raw)
+                                blen = v.bit_length() // 8 + 1
+                                return {"bodylen": blen, "restlen": len(rest), "same": v == int.from_bytes(body, "big") and rest == tail}
+                            b_, rest = fn(raw)
+                            return {"bodylen": len(b_), "restlen": len(rest), "same": bytes(b_) == body[:len(b_)] and bytes(rest) == (body + tail)[len(b_):]}
+                        events.append({"fn": "bigtlv", "tag": tag, "hdr": b2l(hdr), "have": len(body) + len(tail), "reader": name,
+                                       "out": outcome(call, lambda x: x)})
+        for n in (65535, 65536, 2 ** 16 + 2 ** 8, 2 ** 24 - 1, 2 ** 24, 2 ** 31 - 1):
+            events.append({"fn": "biglen", "l": n, "out": outcome(lambda: der.encode_length(n), lambda x: {"v": b2l(x)})})
+    big_events()
+
     ctx.evaluations += len(events)
     if __import__("os").environ.get("VERIF_COUNT"):
         import collections, json
